@@ -1,11 +1,13 @@
 (** C35 — property theorems only.  The model (CSE/Model.v) is tied to hail/python/hail/ir/renderer.py by the
     correspondence run of harness/props/C35.py (real CSERenderer output read back and compared structurally). *)
-From HailV Require Import Common.Prelude CSE.Model CSE.Basics CSE.PrintDefs CSE.PrintLemmas4 CSE.PrintCorrect CSE.Analysis CSE.Main.
+From HailV Require Import Common.Prelude CSE.Model CSE.Basics CSE.PrintDefs CSE.PrintLemmas4 CSE.PrintCorrect CSE.Analysis CSE.Main
+  CSE.ErrLemmas CSE.ErrStrict CSE.ErrPrint CSE.ErrMain.
 
 (** For EVERY expression DAG of the modelled IR (literals, arithmetic, comparison, If, Let, Ref, MakeStruct/GetField,
     MakeArray/ArrayLen/ToArray/ToStream, StreamMap/StreamFilter/StreamFold with binders; arbitrary sharing, shadowing,
     free variables) and every environment, the IR with shared subexpressions lifted into let-bindings evaluates to the
-    same value as the fully inlined IR (the tree itself: [eval] ignores identities). *)
+    same value as the fully inlined IR (the tree itself: [eval] ignores identities).  [eval] is the TOTAL semantics (a failing
+    operation yields a junk value); the semantics with errors is treated by the last three theorems. *)
 Theorem C35_semantics_preserved : forall d : node, consistent d -> wf_node d = true ->
   forall rho : env, eval (cse d) rho = eval d rho.
 Proof. exact cse_preserves_meaning. Qed.
@@ -34,3 +36,33 @@ Theorem C35_print_pass_correct_for_any_sites : forall (d : node) (sts : list (N 
     bs' = [] /\ (forall v, In v (fv T) -> In v (fv d)) /\ (forall rho, eval T rho = eval d rho).
 Proof. exact print_any_sites. Qed.
 Print Assumptions C35_print_pass_correct_for_any_sites.
+
+(** Semantics WITH ERRORS ([evalE]: a result is a value or [Err]; integer [//] and [%] by zero and out-of-bounds array indexing
+    fail; [Let] is strict, [If] evaluates only the branch taken, a loop evaluates its body once per element, every other node
+    evaluates all its children).  The full statement
+        forall d, consistent d -> wf_node d = true -> forall rho, evalE (cse d) rho = evalE d rho
+    is FALSE for the renderer as it is ([C35_error_semantics_refuted]): only [If] branches stop a let from being lifted, loop
+    bodies do not, so a loop-invariant failing expression used twice in the body of a loop that runs zero times is evaluated
+    by the rendered IR and not by the inlined IR.  What holds, for EVERY DAG and environment: if every loop-invariant
+    subexpression of a loop body is free of operations that can fail ([loops_ok]; arities as the front end builds them), the
+    rendered IR fails exactly when the inlined IR fails and otherwise gives the same value — every let is put at a node below
+    which all its uses sit in strict positions (no untaken branch in between), so it is evaluated only if a use is. *)
+Theorem C35_error_semantics_preserved_partial : forall d : node,
+  consistent d -> wf_node d = true -> wf_arity d = true -> loops_ok d = true ->
+  forall rho : env, evalE (cse d) rho = evalE d rho.
+Proof. exact cse_preserves_errors. Qed.
+Print Assumptions C35_error_semantics_preserved_partial.
+
+Theorem C35_error_semantics_refuted :
+  exists (d : node) (rho : env),
+    consistent d /\ wf_node d = true /\ wf_arity d = true /\ loops_ok d = false /\
+    evalE d rho = Val (VArr []) /\ evalE (cse d) rho = Err.
+Proof. exact error_semantics_refuted. Qed.
+Print Assumptions C35_error_semantics_refuted.
+
+(** The semantics with errors is the total value of [eval] plus an error flag (no hypothesis): the first theorem of this file
+    and [C35_error_semantics_preserved_partial] speak about the same values. *)
+Theorem C35_error_semantics_is_value_plus_flag : forall (t : node) (rho : env),
+  evalE t rho = if errsE t rho (fun _ => false) then Err else Val (eval t rho).
+Proof. exact evalE_value_plus_flag. Qed.
+Print Assumptions C35_error_semantics_is_value_plus_flag.
